@@ -461,7 +461,9 @@ fn min_max_helper<T, A: ArrayAccessor<Item = T>, F>(array: A, cmp: F) -> Option<
 where
     F: Fn(&T, &T) -> bool,
 {
-    let null_count = array.null_count();
+    // Logical nulls: a dictionary's values may be null under a valid key
+    let nulls = array.logical_nulls();
+    let null_count = nulls.as_ref().map(|n| n.null_count()).unwrap_or_default();
     if null_count == array.len() {
         None
     } else if null_count == 0 {
@@ -472,7 +474,7 @@ where
             .map(|i| unsafe { array.value_unchecked(i) })
             .reduce(|acc, item| if cmp(&acc, &item) { item } else { acc })
     } else {
-        let nulls = array.nulls().unwrap();
+        let nulls = nulls.unwrap();
         unsafe {
             let idx = nulls.valid_indices().reduce(|acc_idx, idx| {
                 let acc = array.value_unchecked(acc_idx);
@@ -576,7 +578,7 @@ pub fn sum_array<T: ArrowNumericType, A: ArrayAccessor<Item = T::Native>>(
 ) -> Option<T::Native> {
     match array.data_type() {
         DataType::Dictionary(_, _) => {
-            let null_count = array.null_count();
+            let null_count = array.logical_null_count();
 
             if null_count == array.len() {
                 return None;
@@ -616,7 +618,7 @@ pub fn sum_array_checked<T: ArrowNumericType, A: ArrayAccessor<Item = T::Native>
 ) -> Result<Option<T::Native>, ArrowError> {
     match array.data_type() {
         DataType::Dictionary(_, _) => {
-            let null_count = array.null_count();
+            let null_count = array.logical_null_count();
 
             if null_count == array.len() {
                 return Ok(None);
@@ -1878,6 +1880,31 @@ mod tests {
         assert!(max_array::<Int8Type, _>(array).is_none());
         let array = dict_array.downcast_dict::<Int8Array>().unwrap();
         assert!(min_array::<Int8Type, _>(array).is_none());
+    }
+
+    #[test]
+    fn test_sum_max_min_dyn_null_values() {
+        // the dictionary values contain a null (with a non-zero value underneath), the keys do not
+        let values = PrimitiveArray::<Int8Type>::new(
+            vec![5_i8, -100, 7].into(),
+            Some(NullBuffer::from(vec![true, false, true])),
+        );
+        let values = Arc::new(values) as ArrayRef;
+        let keys = Int8Array::from_iter_values([0_i8, 1, 2]);
+        let dict_array = DictionaryArray::new(keys, values.clone());
+        let array = dict_array.downcast_dict::<Int8Array>().unwrap();
+        assert_eq!(Some(5), min_array::<Int8Type, _>(array));
+        assert_eq!(Some(7), max_array::<Int8Type, _>(array));
+        assert_eq!(Some(12), sum_array::<Int8Type, _>(array));
+
+        // every referenced value is null
+        let keys = Int8Array::from_iter_values([1_i8, 1]);
+        let dict_array = DictionaryArray::new(keys, values.clone());
+        let array = dict_array.downcast_dict::<Int8Array>().unwrap();
+        assert!(min_array::<Int8Type, _>(array).is_none());
+        assert!(max_array::<Int8Type, _>(array).is_none());
+        assert!(sum_array::<Int8Type, _>(array).is_none());
+        assert!(sum_array_checked::<Int8Type, _>(array).unwrap().is_none());
     }
 
     #[test]
